@@ -23,6 +23,8 @@ use prost::{DecodeError, Message};
 use crate::proto::command::ListenersCount;
 
 pub const MAX_FDS_OUT: usize = 200;
+/// The kernel's limit of descriptors in one SCM_RIGHTS message.
+const SCM_MAX_FD: usize = 253;
 /// Size of the receive buffer for the listener manifest (the length-delimited
 /// `ListenersCount`). It must hold the manifest of `MAX_FDS_OUT` listeners:
 /// each address is framed as tag + length + text, and the longest `SocketAddr`
@@ -201,7 +203,32 @@ impl ScmSocket {
 
         debug!("{} received :{:?}", self.fd, (size, file_descriptor_length));
 
-        let listeners_count = ListenersCount::decode_length_delimited(&buf[..size])
+        // From here on the kernel has installed `file_descriptor_length`
+        // descriptors in this process. Whatever is not handed to the caller
+        // inside `Listeners` must be closed: a listening socket left open and
+        // unreferenced keeps its address bound and queues connections nobody
+        // will ever accept.
+        let received = &received_fds[..file_descriptor_length];
+        match Self::pair_listeners(&buf[..size], received) {
+            Ok((listeners, used)) => {
+                close_fds(&received[used..]);
+                Ok(listeners)
+            }
+            Err(error) => {
+                close_fds(received);
+                Err(error)
+            }
+        }
+    }
+
+    /// Decode the manifest and pair every address with its descriptor.
+    /// Returns the listeners and how many of `received_fds` they reference.
+    fn pair_listeners(
+        manifest: &[u8],
+        received_fds: &[RawFd],
+    ) -> Result<(Listeners, usize), ScmSocketError> {
+        let file_descriptor_length = received_fds.len();
+        let listeners_count = ListenersCount::decode_length_delimited(manifest)
             .map_err(ScmSocketError::DecodeError)?;
 
         // Validate the manifest before indexing into the fixed-size FD array.
@@ -369,12 +396,15 @@ impl ScmSocket {
             "reconstructed listener count must equal the reconciled FD total"
         );
 
-        Ok(Listeners {
-            http,
-            tls,
-            tcp,
-            udp,
-        })
+        Ok((
+            Listeners {
+                http,
+                tls,
+                tcp,
+                udp,
+            },
+            total,
+        ))
     }
 
     /// Sends message and file descriptors separately. The file descriptors are summed up
@@ -410,7 +440,11 @@ impl ScmSocket {
         // Snapshot the buffer length before `message` is borrowed mutably by
         // `iov`; the received byte count is asserted against it below.
         let message_capacity = message.len();
-        let mut cmsg = cmsg_space!([RawFd; MAX_FDS_OUT]);
+        // Room for as many descriptors as one message can carry (SCM_MAX_FD):
+        // with a smaller buffer the kernel truncates the control message,
+        // installs the descriptors that fit, and nix then refuses to list
+        // them — they could not even be closed.
+        let mut cmsg = cmsg_space!([RawFd; SCM_MAX_FD]);
         let mut iov = [IoSliceMut::new(message)];
 
         let flags = if self.blocking {
@@ -430,7 +464,7 @@ impl ScmSocket {
             "destination FD slice must not exceed the MAX_FDS_OUT cmsg space"
         );
         let mut fd_count = 0;
-        let received_fds = msg
+        let received_fds: Vec<RawFd> = msg
             .cmsgs()
             .map_err(|error| ScmSocketError::Receive(error.to_string()))?
             .filter_map(|cmsg| {
@@ -440,8 +474,18 @@ impl ScmSocket {
                     None
                 }
             })
-            .flatten();
-        for (fd, place) in received_fds.zip(fds.iter_mut()) {
+            .flatten()
+            .collect();
+        if received_fds.len() > fds_capacity {
+            // more descriptors than a hand-over may carry: keep none of them
+            close_fds(&received_fds);
+            return Err(ScmSocketError::Receive(format!(
+                "received {} file descriptors, at most {} are accepted",
+                received_fds.len(),
+                fds_capacity
+            )));
+        }
+        for (fd, place) in received_fds.into_iter().zip(fds.iter_mut()) {
             fd_count += 1;
             *place = fd;
             // The zip is bounded by `fds.iter_mut()`, so each wrap stays within
@@ -573,6 +617,17 @@ impl Listeners {
             unsafe {
                 let _ = UdpSocket::from_raw_fd(*fd);
             }
+        }
+    }
+}
+
+/// Close descriptors received over the socket that nobody will reference.
+fn close_fds(fds: &[RawFd]) {
+    for fd in fds {
+        // SAFETY: these descriptors were installed in this process by the
+        // `recvmsg` that just returned and have not been handed to anyone.
+        unsafe {
+            libc::close(*fd);
         }
     }
 }
